@@ -240,7 +240,11 @@ func (e *TaskExecutor) ExecuteTask(
 	}
 
 	span.AddEvent("calling method")
-	response, err := e.Chaincode.InvokeContractMethod(traceCtx, txCacheStub, senderAddress, method, args)
+	var methodStub shim.ChaincodeStubInterface = txCacheStub
+	if e.Chaincode.Router().IsQuery(method) {
+		methodStub = newQueryStub(txCacheStub)
+	}
+	response, err := e.Chaincode.InvokeContractMethod(traceCtx, methodStub, senderAddress, method, args)
 	if err != nil {
 		return handleTaskError(span, task, err)
 	}
